@@ -69,7 +69,7 @@ var (
 	stepBase int64 // steps at the last Progress() call: the cap is per operation
 	switches int64
 	preempts int64 // switches at library yield sites (not at seams/pauses)
-	stepCap  int64 = 3000000
+	stepCap  int64 = 400000
 
 	// tape
 	tape        [TapeCap]uint64
@@ -443,6 +443,7 @@ func Yield(site int) {
 		siteHit[site]++
 	}
 	if steps-stepBase > stepCap {
+		stepBase = steps // the other tasks get a fresh budget
 		panic(StepCapPanic{Site: site})
 	}
 	prev := lastSite[me]
@@ -509,6 +510,7 @@ func Seam(code int) {
 	me := current
 	steps++
 	if steps-stepBase > stepCap {
+		stepBase = steps
 		panic(StepCapPanic{Site: -code})
 	}
 	clearIdleAll()
@@ -552,6 +554,7 @@ func PauseOn(key int32, deadline int64) bool {
 	me := current
 	steps++
 	if steps-stepBase > stepCap {
+		stepBase = steps
 		panic(StepCapPanic{Site: -1})
 	}
 	idle[me] = true
